@@ -32,7 +32,7 @@ fn gen_data(rng: &mut Rng) -> Sx {
 
 pub fn gen(tier: Tier, rng: &mut Rng) -> Vec<Sx> {
     let mut v = vec![];
-    let n = if tier == Tier::Thorough { 40000 } else { 5000 };
+    let n = if tier == Tier::Thorough { 15000 } else { 5000 };
     for i in 0..n {
         let sorted = i % 2 == 1;        // odd: inert actions, many facts per type, order-insensitive; even: effects, <= 1 live fact per type
         let nr = rng.range(2, 6);
